@@ -128,6 +128,11 @@ func c13Catalogue() []c13Call {
 		{"&T{I: nil *T}", &c13Node{A: "x", I: nilNode, R: one}}, {"&T{I: struct}", &c13Node{A: "x", I: c13Node{}, R: one}},
 		{"odd kinds", odd}, {"&odd zero", &c13Odd{}}, {"caseless field names", &c13Caseless{数量: 5, 名称: "zz,zz", שם: []int{1, 1}, ある: "x", いる: "y", 子: one}}, {"caseless zero", c13Caseless{}}, {"[]*odd{nil}", []*c13Odd{nil, &odd}},
 		{"*[]T", &[]c13Node{{A: ""}}}, {"*[]*T{nil}", &[]*c13Node{nil}}, {"struct{}", struct{}{}}, {"*struct{}", &struct{}{}},
+		// empty and nil collections of every wrong shape (what the first element would have refused is never reached)
+		{"map[int]string{}", map[int]string{}}, {"map[int]string(nil)", map[int]string(nil)}, {"map[float64]int{}", map[float64]int{}}, {"map[struct]string{}", map[struct{ A int }]string{}},
+		{"*map[int]string{}", &map[int]string{}}, {"[]map[int]string{{},nil}", []map[int]string{{}, nil}}, {"map[bool]*T(nil)", map[bool]*c13Node(nil)}, {"map[interface{}]int{}", map[interface{}]int{}},
+		{"map[string]string{}", map[string]string{}}, {"map[string]interface{}(nil)", map[string]interface{}(nil)}, {"[]map[string]string{}", []map[string]string{}}, {"[]map[string]string{nil}", []map[string]string{nil}},
+		{"[0]T{}", [0]c13Node{}}, {"[0]*T{}", [0]*c13Node{}}, {"[]*T{}", []*c13Node{}}, {"[]interface{}{}", []interface{}{}}, {"map[string][]int{}", map[string][]int{}}, {"*[]map[int]int{}", &[]map[int]int{}},
 		{"map[string]T", map[string]c13Node{"k": {}}}, {"map[*T]T", map[*c13Node]c13Node{one: {}}}, {"map[interface{}]*T", map[interface{}]*c13Node{nil: nil, 1: one}},
 	}
 	var calls []c13Call
